@@ -4,7 +4,7 @@ SPEC = {
     "lean_modules": ["SemaModel.C17.Props"],
     "lean_dirs": ["SemaModel/C17"],
     "harness": "c17",
-    "harness_args": {"quick": ["-n", 150, "-big", 8, "-curate", 2000], "thorough": ["-n", 1500, "-big", 60, "-curate", 30000]},
+    "harness_args": {"quick": ["-n", 400, "-big", 15, "-curate", 3000], "thorough": ["-n", 3000, "-big", 100, "-curate", 50000]},
     "timeout": {"quick": 900, "thorough": 3000},
     "level": "proof",
     "tie": "T3: go/cmd/c17 builds fresh clusters of 1..3 real in-process servers (NewNode + Serve on loopback) with small per-shard point limits (1..8 shards per collection), drives insert / update / delete / search through every live entry node, stops one server in many scenarios, and runs the Lean model on the same op lines; what is an oracle for the model (placement of inserted points, each shard's answer to a query) is read from the shards directly; the property oracles are evaluated on the real responses; the real curateFailedPoints is also called directly through cluster/verif_export.go. T2: Generated/FactsC17.lean pins the constants (as float32 bit patterns, used by the driver) and the expression text of the per-shard limit, the offset rule, the cut and the score comparison of ClusterNode.SearchPoints",
